@@ -45,6 +45,30 @@ func ruleWhoMayDeleteAllocation(c *Ctx, rule string) {
 		}
 		return true
 	}
+	// onlyRefresh: top is the Refresh handler or a helper of it that no other handler uses
+	handlers := w.authedHandlers(nil, rule)
+	onlyRefresh := func(top *ssa.Function) bool {
+		in := func(h *ssa.Function) bool {
+			if h == nil {
+				return false
+			}
+			for _, f := range w.helpersOf(h) {
+				if f == top {
+					return true
+				}
+			}
+			return false
+		}
+		if !in(handlers["MethodRefresh"]) {
+			return false
+		}
+		for m, h := range handlers {
+			if m != "MethodRefresh" && in(h) {
+				return false
+			}
+		}
+		return true
+	}
 	for _, cs := range w.callsTo(del) {
 		fn := cs.Parent()
 		top := fn
@@ -110,7 +134,9 @@ func ruleWhoMayDeleteAllocation(c *Ctx, rule string) {
 		case runsFromTimer(fn, 0):
 			c.OK(rule, fname(fn), "DeleteAllocation", w.instrPos(in), "run by a timer (the allocation's lifetime; which allocation and when is C06.4's business)")
 		case fnPkgPath(fn) == srv:
-			if ok, _ := w.requestTupleAny(arg); ok {
+			if !onlyRefresh(top) {
+				c.Bad(rule, fname(fn), "DeleteAllocation", w.instrPos(in), "a request handler other than Refresh deletes an allocation: among the requests only a Refresh with lifetime 0 ends an allocation — here one is released as a side effect of answering another request (e.g. when a response could not be written, which for a retransmitted Allocate removes the allocation the first response already reported, long before its LIFETIME)")
+			} else if ok, _ := w.requestTupleAny(arg); ok {
 				c.OK(rule, fname(fn), "DeleteAllocation", w.instrPos(in), "a request handler deleting the allocation of the request's own 5-tuple (Refresh 0; the guard is C06.3's business)")
 			} else {
 				c.Bad(rule, fname(fn), "DeleteAllocation", w.instrPos(in), "a request handler deletes an allocation that is not the one on the request's own 5-tuple")
